@@ -268,3 +268,61 @@ Lemma cmap12_iter_total_lemma : forall groups lim n, Z.of_nat (length groups) < 
   cmap12_take n groups lim (cmap12_iter_new groups lim) <> Panic /\
   (forall e, cmap12_take n groups lim (cmap12_iter_new groups lim) <> Err e).
 Proof. intros groups lim n H. apply cmap12_take_total; [exact H|]. unfold ci_inv, cmap12_iter_new. cbn. lia. Qed.
+
+(* ---------- postscript/dict.rs parse_bcd ---------- *)
+Lemma bcd_push_ok buf byte : blen buf <= 32 ->
+  (exists b, bcd_push buf byte = Ok b /\ blen b = blen buf + 1 /\ blen b <= 32) \/ bcd_push buf byte = Err InvalidNumber.
+Proof.
+  intros H. unfold bcd_push, BCD_MAX_LEN. pose proof (blen_nonneg buf). destruct (blen buf <? 32) eqn:E; [|right; reflexivity].
+  apply Z.ltb_lt in E. replace (0 <=? blen buf) with true by (symmetry; apply Z.leb_le; lia). cbn [andb].
+  left. eexists. split; [reflexivity|]. rewrite blen_app. change (blen [byte]) with 1. lia.
+Qed.
+Definition bcd_post (buf : list Z) (r : res (list Z * bool)) : Prop :=
+  match r with Ok (b, _) => blen b <= 32 | Err e => e = InvalidNumber | Panic => False end.
+Lemma bcd_nibble_ok buf nib : blen buf <= 32 -> bcd_post buf (bcd_nibble buf nib).
+Proof.
+  intros H. unfold bcd_nibble.
+  assert (P : forall byte, bcd_post buf (rdo b <- bcd_push buf byte ;; Ok (b, false))).
+  { intros byte. destruct (bcd_push_ok buf byte H) as [(b & E & _ & L)|E]; rewrite E; cbn [rbind bcd_post]; auto. }
+  destruct ((0 <=? nib) && (nib <=? 9)); [apply P|].
+  destruct (nib =? 10); [apply P|]. destruct (nib =? 11); [apply P|].
+  destruct (nib =? 12).
+  - destruct (bcd_push_ok buf 69 H) as [(b & E & _ & L)|E]; rewrite E; cbn [rbind bcd_post]; auto.
+    destruct (bcd_push_ok b 45 L) as [(b2 & E2 & _ & L2)|E2]; rewrite E2; cbn [rbind bcd_post]; auto.
+  - destruct (nib =? 14); [apply P|]. destruct (nib =? 15); cbn [bcd_post]; auto.
+Qed.
+(* the loop never panics, never writes past the 32-byte buffer, and needs at most one round per remaining byte (+1) *)
+Lemma bcd_loop_ok : forall fuel c buf, blen buf <= 32 -> 0 <= cpos c <= USIZE_MAX -> crem c < Z.of_nat fuel ->
+  match snd (bcd_loop fuel c buf) with
+  | Ok b => blen b <= 32
+  | Err e => e = InvalidNumber \/ e = OutOfBounds
+  | Panic => False
+  end.
+Proof.
+  induction fuel; intros c buf Hb Hp Hf; [pose proof (crem_nonneg c); lia|].
+  cbn [bcd_loop]. unfold c_read. destruct (read_at 1 (cdata c) (cpos c)) eqn:R; cbn [snd].
+  - pose proof (read_at_ok_nooverflow _ _ _ _ R) as NO. apply read_at_ok_inv in R; try lia. destruct R as [R _].
+    pose proof (bcd_nibble_ok buf (Z.land (Z.shiftr a 4) 15) Hb) as N1.
+    destruct (bcd_nibble buf (Z.land (Z.shiftr a 4) 15)) as [[b1 [|]]|e|]; cbn [bcd_post snd] in *; auto; try contradiction.
+    pose proof (bcd_nibble_ok b1 (Z.land a 15) N1) as N2.
+    destruct (bcd_nibble b1 (Z.land a 15)) as [[b2 [|]]|e|]; cbn [bcd_post snd] in *; auto; try contradiction.
+    apply IHfuel; auto.
+    + cbn [c_advance cpos]. unfold sat_add. usz. lia.
+    + unfold crem in *. cbn [c_advance cpos cdata]. unfold sat_add. usz. lia.
+  - right. eapply read_at_err; eauto.
+  - eapply read_at_total; eauto.
+Qed.
+Lemma parse_bcd_total_lemma : forall c, 0 <= cpos c <= USIZE_MAX ->
+  match snd (parse_bcd c) with
+  | Ok s => blen s <= 32 /\ f64_syntax_ok s = true
+  | Err e => e = InvalidNumber \/ e = OutOfBounds
+  | Panic => False
+  end.
+Proof.
+  intros c Hp. unfold parse_bcd.
+  pose proof (bcd_loop_ok (S (length (cdata c))) c [] ltac:(cbn; lia) Hp) as L.
+  assert (F : crem c < Z.of_nat (S (length (cdata c)))) by (unfold crem, blen; lia). specialize (L F).
+  destruct (bcd_loop (S (length (cdata c))) c []) as [c1 r]. cbn [snd] in *.
+  destruct r as [s|e|]; cbn [rbind]; auto.
+  destruct (f64_syntax_ok s) eqn:S; auto.
+Qed.
